@@ -71,14 +71,15 @@ def _dec2x(x, places=None, base=16):
         return x
     y = _xmask[base]
     if -y <= x < y:
-        if x < 0:
+        neg = x < 0  # Excel ignores places when the number is negative.
+        if neg:
             x += y << 1
         x = _xfunc[base](int(x))[2:].upper()
         if places is not None:
             places = _parseDEC(places)  # A referenced cell comes as an array.
             if isinstance(places, XlError):
                 return places
-            if 10 >= places >= len(x):  # Excel accepts at most 10 places.
+            if 10 >= places >= (0 if neg else len(x)):  # At most 10 places.
                 return x.zfill(int(places))
         else:
             return x
